@@ -39,18 +39,28 @@ def execute(ops, knobs, pac=False, timeout=RUN_TIMEOUT):
 class RefCache:
     """References are computed by real optyx code in a pristine fork, memoised on the request."""
 
+    # process-wide memo (per worker): a reference is a pure function of (ops, knobs, code under test)
+    GLOBAL = {}
+    GLOBAL_MAX = 4000
+
     def __init__(self, knobs):
         self.knobs = knobs
-        self.memo = {}
+        self.kkey = json.dumps(knobs, sort_keys=True)
         self.forks = 0
+        self.hits = 0
 
     def get(self, req):
-        key = json.dumps(req, sort_keys=True)
-        if key not in self.memo:
+        key = self.kkey + json.dumps(req, sort_keys=True)
+        g = RefCache.GLOBAL
+        if key not in g:
             self.forks += 1
             res = execute(req["ops"], self.knobs, req.get("pac", False))
-            self.memo[key] = res["log"][-1]
-        return self.memo[key]
+            if len(g) >= RefCache.GLOBAL_MAX:
+                g.clear()
+            g[key] = res["log"][-1]
+        else:
+            self.hits += 1
+        return g[key]
 
 
 # --------------------------------------------------------------------------
@@ -170,7 +180,15 @@ def judge_history(prop, case, res, reach, refs, what=("events", "obs", "warn"), 
             if rec["op"] == "solve":
                 # literal statement (parameters replaced by Constants): other code path, so
                 # only optimal-vs-optimal objective values, at the documented solver accuracy
-                if o1.get("status") == "optimal" and o2.get("status") == "optimal":
+                e1 = (rec.get("events") or [{}])[0].get("seam")
+                e2 = (ref2.get("events") or [{}])[0].get("seam")
+                if e1 == "linprog" and e2 == "linprog":
+                    # both exact LP solves: the parametric model must give the constants-model's answer
+                    reach.probe("r2-lp-solve-compared")
+                    d = O.diff({k: o1.get(k) for k in ("status", "obj")}, {k: o2.get(k) for k in ("status", "obj")}, "", rtol=1e-6)
+                    if d:
+                        findings.append(_finding(prop, "vs-constants/lp-solve", rec, d))
+                elif o1.get("status") == "optimal" and o2.get("status") == "optimal" and rec["op"] == "solve" and rec.get("r2_convex"):
                     reach.probe("r2-solve-compared")
                     if not O.num_close(o1["obj"], o2["obj"], O.R2_SOLVE_RTOL):
                         findings.append(_finding(prop, "vs-constants/solve/obj", rec, f"obj {o1['obj']!r} vs constants-model {o2['obj']!r}"))
